@@ -22,9 +22,14 @@ def gen_domain(rng):
     elif r < 0.60:
         # spans at the step thresholds err = 0.15, 0.35, 0.75 (+- eps)
         k = rng.randrange(-8, 10)
-        target = rng.choice([0.15, 0.35, 0.75]) * (1 + rng.choice([0, 1e-12, -1e-12, 1e-9, -1e-9, 1e-3, -1e-3]))
+        thr = rng.choice([0.15, 0.35, 0.75])
+        target = thr * (1 + rng.choice([0, 1e-12, -1e-12, 1e-9, -1e-9, 1e-3, -1e-3, 4e-3, -4e-3, 1.2e-2, -1.2e-2, rng.uniform(-0.03, 0.03)]))
         span = meff * 10.0 ** k / target
         lo = rng.choice([0.0, rng.uniform(-1, 1) * span * 10 ** rng.uniform(0, 3)])
+        if rng.random() < 0.4:
+            # the lower end just above a multiple of the coarser of the two candidate steps: as few multiples as possible fit
+            coarse = {0.15: 10, 0.35: 5, 0.75: 2}[thr] * 10.0 ** k
+            lo = (rng.randrange(-50, 50) + rng.choice([1e-6, 1e-3, 0.02])) * coarse
         hi = lo + span
         tag = "threshold"
     elif r < 0.80:
